@@ -35,14 +35,14 @@ open Mfi Mfi.Fx Mfi.Gen Mfi.Gen.Acc
 inductive AccV
   | group (key admin : Nat) (paused : Bool)
   | acct (key group authority : Nat) (flags : Nat)
-  | bank (key group liquidityVault : Nat) (tag : Int) (flags : Nat) (weightInitZero : Bool)
+  | bank (key group liquidityVault : Nat) (tag : Int) (flags : Nat) (weightInitZero : Bool) (emissionsMint : Nat := 0)
   | other (key : Nat)
   deriving DecidableEq, Repr
 
 def AccV.key : AccV → Nat
   | .group k _ _ => k
   | .acct k _ _ _ => k
-  | .bank k _ _ _ _ _ => k
+  | .bank k _ _ _ _ _ _ => k
   | .other k => k
 
 abbrev Env := F → Option AccV
@@ -60,7 +60,7 @@ def flBit (f : Fl) : Option Int :=
 
 def flagsOf : AccV → Option Nat
   | .acct _ _ _ fl => some fl
-  | .bank _ _ _ _ fl _ => some fl
+  | .bank _ _ _ _ fl _ _ => some fl
   | _ => none
 
 def tagIs (k : TagK) (t : Int) : Bool :=
@@ -79,8 +79,9 @@ def evalChk (env : Env) : Chk → Option Bool
     match env field, env target with
     | some (.acct _ g _ _), some (.group k _ _) => some (g == k)
     | some (.acct _ _ a _), some (.other k) => if target = .f_authority then some (a == k) else none
-    | some (.bank _ g _ _ _ _), some (.group k _ _) => some (g == k)
-    | some (.bank _ _ v _ _ _), some (.other k) => if target = .f_liquidity_vault then some (v == k) else none
+    | some (.bank _ g _ _ _ _ _), some (.group k _ _) => some (g == k)
+    | some (.bank _ _ v _ _ _ em), some (.other k) =>
+      if target = .f_liquidity_vault then some (v == k) else if target = .f_emissions_mint then some (em == k) else none
     | _, _ => none
   | .cons _ c =>
     match c with
@@ -94,7 +95,7 @@ def evalChk (env : Env) : Chk → Option Bool
       match env a, env s with
       | some (.acct _ _ auth fl), some sk => some (Auth.notFrozenForAuthority (acctView auth fl) sk.key)
       | _, _ => none
-    | .assetTag k b => match env b with | some (.bank _ _ _ t _ _) => some (tagIs k t) | _ => none
+    | .assetTag k b => match env b with | some (.bank _ _ _ t _ _ _) => some (tagIs k t) | _ => none
     | .flagClear a f =>
       match (env a).bind flagsOf, flBit f with
       | some fl, some bit => some (!hasFlag fl bit)
@@ -105,7 +106,7 @@ def evalChk (env : Env) : Chk → Option Bool
       | _, _ => none
     | .zeroWeightRecv a b =>
       match env a, env b with
-      | some (.acct _ _ _ fl), some (.bank _ _ _ _ _ wz) => some (!(hasFlag fl ACCOUNT_IN_RECEIVERSHIP && wz))
+      | some (.acct _ _ _ fl), some (.bank _ _ _ _ _ wz _) => some (!(hasFlag fl ACCOUNT_IN_RECEIVERSHIP && wz))
       | _, _ => none
     | _ => none
 
@@ -156,6 +157,7 @@ structure BankV where
   tfBps : Int
   tfMax : Int
   weightInitZero : Bool
+  emissionsMint : Nat := 0
   deriving Repr
 
 structure Ctx where
@@ -167,14 +169,16 @@ structure Ctx where
   vaultKey : Nat           -- the liquidity-vault account passed to the instruction
   vaultAmount : Int        -- its token balance
   risk : List RiskB
+  emisMint : Nat := 0      -- the emissions mint account passed (emissions instructions only)
   deriving Repr
 
 def Ctx.env (c : Ctx) : Env := fun f =>
   if f = .f_group then some (.group c.g.key c.g.admin c.g.paused)
   else if f = .f_marginfi_account then some (.acct c.a.key c.a.group c.a.authority c.a.flags)
   else if f = .f_authority then some (.other c.signer)
-  else if f = .f_bank then some (.bank c.b.key c.b.group c.b.liquidityVault c.b.books.assetTag c.b.books.flags c.b.weightInitZero)
+  else if f = .f_bank then some (.bank c.b.key c.b.group c.b.liquidityVault c.b.books.assetTag c.b.books.flags c.b.weightInitZero c.b.emissionsMint)
   else if f = .f_liquidity_vault then some (.other c.vaultKey)
+  else if f = .f_emissions_mint then some (.other c.emisMint)
   else none
 
 structure Out where
@@ -546,6 +550,19 @@ def bankruptcy (c : Ctx) (available : Int) : Res BkrOut := do
     let o ← Bank.settleBankruptcy b x available c.now
     .ok { slots := c.a.slots.set i (ofBal c.b.key o.bal), books := o.bank, insuranceTokens := o.coveredUp,
           opState := if o.kill then 3 else c.b.opState, flags := c.a.flags ||| ACCOUNT_DISABLED.toNat }
+
+/-! ### `lending_account_withdraw_emissions`, the whole instruction
+
+account checks (regenerated table: pause, group, frozen, signer rule without the receivership path, the bank's own emissions
+mint, own asset tag) → the account is not disabled → the position → `settle_emissions_and_get_transfer_amount` (claim up to
+now, whole tokens out, fraction kept) → that many tokens leave the emissions vault for the destination. No accrual, no sort. -/
+
+def withdrawEmissions (c : Ctx) : Res Out := do
+  runChecks c.env (checks .LendingAccountWithdrawEmissions)
+  Bank.chk (!(flag c ACCOUNT_DISABLED)) E.AccountDisabled
+  let (i, s) ← findSlot c
+  let (b', x', amount) ← Bank.settleEmissions c.b.books (toBal s) c.now
+  .ok { slots := c.a.slots.set i (ofBal c.b.key x'), books := b', tokens := amount, window := c.g.window }
 
 /-! ### `lending_account_end_flashloan`, the whole instruction
 
